@@ -1,6 +1,9 @@
 (** ASCII string helpers shared by the models. *)
 From Coq Require Export List String Ascii ZArith Bool Lia.
 Export ListNotations.
+(* Tree is re-exported last so that its [get]/[set]/[length]-free names win over
+   String's ([String.get]) whatever order the two files are imported in. *)
+From InvokeVerif Require Export Common.Tree.
 Open Scope string_scope.
 Open Scope list_scope.
 
